@@ -15,6 +15,10 @@ pub fn build_need_check_nil(
     let document = semantic_model.get_document();
     let offset = document.get_offset(range.end.line as usize, range.end.character as usize)?;
     let root = semantic_model.get_root();
+    if offset > root.syntax().text_range().end() {
+        return None;
+    }
+
     let token = match root.syntax().token_at_offset(offset) {
         TokenAtOffset::Single(token) => token,
         TokenAtOffset::Between(_, token) => token,
